@@ -13,7 +13,7 @@ from ..translate import gen
 from . import c11
 
 MODULE = "PyseqmVerif.Properties.C10"
-THEOREMS = ["MDOut.resume_any_history", "MDOut.disk_invariant_along_history"]
+from .registry import THEOREMS_C10 as THEOREMS  # noqa: E402
 
 META = {
     "technique": "Lean 4 state-machine invariant over arbitrary crash/resume histories (model MDOut: HDF5 cursors, XYZ buffer, atomic checkpoint cell) + crash-history correspondence with real SIGKILL/exception injection",
